@@ -194,6 +194,8 @@ MENU = [
     ("ge", {(0,): 1, (1,): 1, (2,): 1, (): -1}, True),
     ("gt", {(0, 1): 2, (2,): -1}, False),
     ("eq", {(0,): 1, (1,): 1, (2,): -1, (): -1}, True),       # general squared form
+    ("ne", {(0,): -1, (1,): -2}, True),                       # != with maximum exactly 0 (implemented through <)
+    ("ne", {(0,): 1, (2,): 2}, True),                         # != with minimum exactly 0 (implemented through >)
 ]
 SPIN_MENU = [
     ("le", {(0,): 1, (1,): 1, (2,): 1, (): -1}, True),
@@ -255,6 +257,13 @@ def check_seq(case, st):
             return
         seen_anc += new
         parts.append((H1, anc1))
+    # the recorded constraints are exactly the ones added, in order, under their own relation
+    want_rec = {}
+    for j in case["seq"]:
+        want_rec.setdefault(MENU[j][0], []).append(gen.relabel(MENU[j][1], "str", N))
+    got_rec, _w = call(lambda: H.constraints)
+    if isinstance(got_rec, Raised) or {k: [dict(p) for p in v] for k, v in got_rec.items()} != want_rec:
+        v("recorded-constraints", "constraints = %s, expected %s" % (short(got_rec, 300), short(want_rec, 300)))
     if H.num_ancillas != len(seen_anc):
         v("ancilla-count", "num_ancillas = %r but %d ancillas were introduced (%r)" % (H.num_ancillas, len(seen_anc), seen_anc))
     if N + len(seen_anc) > MAX_SEQ_VARS:
